@@ -590,7 +590,7 @@ class SemiNorm(Functional):
 
             if not is_vector:
                 a    = Hessian(expr)
-                expr = Dot(a, a)
+                expr = Inner(a, a)
 
             else:
                 raise NotImplementedError('TODO')
@@ -663,7 +663,7 @@ class Norm(Functional):
             if not is_vector:
                 a    = Hessian(expr)
                 b    = Grad(expr)
-                expr = Dot(a, a) + Dot(b, b) + expr * expr
+                expr = Inner(a, a) + Dot(b, b) + expr * expr
 
             else:
                 raise NotImplementedError('TODO')
